@@ -5,7 +5,7 @@ HERE = os.path.dirname(os.path.dirname(os.path.abspath(__file__)))
 
 CHECKS = {
  "C01": ("other", "intra-procedural interval analysis (UB1: branch refinement, threshold widening, relational facts) over clang's CFG + whole-program value-origin analysis + constructor/field-initialisation analysis + release-event / ownership census with one-level callee summaries",
-         "Decides seven structural clauses of memory safety: R-ARRAY (every index into / copy into a fixed-size array is bounded on all paths), R-TYPEWRITE (every value reaching token.type is a known constant < kMaxTokenTypes), R-LOOKBEHIND (every x-k string index is guarded by x>=k), R-INIT (no read of a never-initialised malloc'ed field), R-STALE (no use of a pointer into a realloc-grown buffer after a call that may move it), R-SCANIDX (a sentinel scan indexes only the scanned buffer or a full copy of it), R-SCANSTOP (forward character scans stop at NUL, classifier tables decoded from char.c), R-HEAPIDX (writes into a freshly malloc'ed character buffer stay inside the requested size), R-UAF (no dereference of a local after it was released directly or through a freeing helper), R-OWN (only the engine deep-frees token trees), R-HASHKEY (hash key pointers are record fields). Does not decide scanner termination, span arithmetic, ownership across containers.",
+         "Decides seven structural clauses of memory safety: R-ARRAY (every index into / copy into a fixed-size array is bounded on all paths), R-TYPEWRITE (every value reaching token.type is a known constant < kMaxTokenTypes), R-LOOKBEHIND (every x-k string index is guarded by x>=k), R-INIT (no read of a never-initialised malloc'ed field), R-STALE (no use of a pointer into a realloc-grown buffer after a call that may move it), R-SCANIDX (a sentinel scan indexes only the scanned buffer or a full copy of it), R-SCANSTOP (forward character scans stop at NUL, classifier tables decoded from char.c), R-HEAPIDX (writes into a freshly malloc'ed character buffer stay inside the requested size), R-UAF (no dereference of a local after it was released directly or through a freeing helper), R-OWN (only the engine deep-frees token trees), R-HASHKEY (hash key pointers are record fields), R-GOTOINIT (no forward goto bypasses the initialisation of a local that is read after the label). Does not decide scanner termination, span arithmetic, ownership across containers.",
          "§3 C01"),
  "C02": ("other", "LALR table exploration (exhaustive) + enum-dispatch partial evaluation + call-graph reachability over clang-resolved callees",
          "Decides three structural clauses: R-LALR (exhaustive exploration of the LALR block parser's configuration space: every sequence of real line kinds is accepted, no error action, stack bounded), R-DISPATCH (every producible token type has a non-escape branch in all 7 writers, by EDPE), R-REDUCE (every reduce action reads all right-hand-side stack slots of its rule), R-LINESTRIP (every line kind a parser action retypes to is unwrapped before export, and no kind is unwrapped in one context but kept raw in another), R-SIBLING (OPML/ITMZ outline writers print the same source ranges per type), R-NOEXIT (no exit/abort reachable from the API). Does not decide that the rendering contains all text.",
@@ -29,22 +29,22 @@ CHECKS = {
          "Decides the escaping discipline: document-derived strings (urls, titles, attribute keys/values, metadata values, fence info strings, clean_string results) reach html/odf/opml/itmz/epub output only through the format's escape helper; token types that some dispatcher renders as an entity are never printed as raw token text by another; the character escapers map & < > \" to entities and pass bytes >= 0x80 through unchanged under both signednesses of plain char; the OPML/ITMZ escaper and the unescaper are inverse; per writer branch every element opened is closed under the same guards (R-BALANCE). Whole-output well-formedness for every input (control characters, data-dependent nesting) is not decided.",
          "§3 C08"),
  "C09": ("other", "call-site census of every mz_zip_writer_add_mem in the package creators (names, order by dominance, flags, data provenance) and cross-literal agreement checks (container.xml / OPF manifest / ODF manifest vs. member names)",
-         "Decides the structural clauses: required members are added under the right names, mimetype first (and stored for ODT) with the right media-type literal, container.xml names the OPF member, the OPF manifest's hrefs and the ODF manifest's full-paths all exist as members, the main member's data is the rendered body, every creator finalises the heap archive into the result DString after all adds, asset names come from uuid_new and the asset table is handed to the builder; ODT and FODT are decided alike by every format branch outside the packaging layer (R-FORMATPAIR, EDPE); the length delta of in-place asset-path replacement is consumed whenever the buffer is used again (R-EDITDELTA); plus R-PTRPTR. CRCs, miniz correctness and byte-level archive validity are not decided.",
+         "Decides the structural clauses: required members are added under the right names, mimetype first (and stored for ODT) with the right media-type literal, container.xml names the OPF member, the OPF manifest's hrefs and the ODF manifest's full-paths all exist as members, the main member's data is the rendered body, every creator finalises the heap archive into the result DString after all adds, asset names come from uuid_new and the asset table is handed to the builder; ODT and FODT are decided alike by every format branch outside the packaging layer (R-FORMATPAIR, EDPE); the length delta of in-place asset-path replacement is consumed whenever the buffer is used again (R-EDITDELTA); a snapshot of a DString's length is not used as that buffer's length after a call that may change it (R-STALE/len); plus R-PTRPTR. CRCs, miniz correctness and byte-level archive validity are not decided.",
          "§3 C09"),
  "C10": ("other", "format-literal census of every id=/href=# anchor site with reaching-definition classification of the printed number; provenance check of heading anchors (one label function); field-write census of the numbering counters",
          "Decides: within each anchor family (fn, fnref, cn, cnref, gn, gnref) every id and every reference print the number derived the same way (plain vs EXT_RANDOM_FOOT-transformed), each referenced family has an id site, heading ids / TOC / EPUB nav / LaTeX labels / ODF bookmarks all come from label_from_header, the auto-link target does too (known finding), the note lists iterate the stacks that assign the numbers and re-read their length, every call anchor is governed by the first-use test, and the random renaming is only ever applied to a plain ordinal. That every reference resolves for every document (label text equality) is not decided.",
          "§3 C10"),
  "C11": ("other", "AST census of every comparison / hash lookup against a stored metadata key; provenance check of the compared value (normaliser result, fixed-point literal, caller arguments)",
-         "Decides necessary conditions only (explicitly weak): keys are stored through label_from_string and every strcmp / HASH_FIND_STR against a stored key uses a value in the same normal form, the API functions detect metadata before reading the stack, and forward character scans (key / value location) stop at the end of input (R-SCANSTOP). Offsets, value extraction, continuation joining and update splicing are data-dependent string arithmetic and are not decided.",
+         "Decides necessary conditions only (explicitly weak): keys are stored through label_from_string and every strcmp / HASH_FIND_STR against a stored key uses a value in the same normal form, the API functions detect metadata before reading the stack, forward character scans (key / value location) stop at the end of input (R-SCANSTOP), a trailing trim tests the element it removes (R-TRIMIDX), clean_string's whitespace flag follows every append on every path for all byte values (R-WSFLAG), and every LINE_EMPTY classification closes the metadata window (R-METAWINDOW). Offsets, value extraction, continuation joining and update splicing are data-dependent string arithmetic and are not decided.",
          "§3 C11"),
  "C12": ("other", "enum-dispatch partial evaluation of accept_token / reject_token over every cm_types enumerator, mirror comparison under ADD<->DEL; loop-direction and writer agreement checks",
          "Decides two structural clauses: accept and reject implement mirror-image tables (so a one-sided edit breaks one of them), every editing loop walks back to front from a tail that is only ever stored on a chain head (R-LINK), and the three writers' inline accept/reject handling of PAIR_CRITIC_* agree with one another and mirror. Byte-exact results and idempotence are not decided.",
          "§3 C12"),
  "C14": ("other", "EDPE of the OPML/ITMZ escapers over all 256 byte values + pattern extraction of the XML unescaper's entity table; inverse-table comparison",
-         "Decides that XML escaping on export and unescaping on import are exact inverses byte for byte (entity text, compare length, cursor advance, governing case), exhaustively over the 256 byte values; that the OPML and ITMZ outline writers print the same source ranges per token type (R-SIBLING); and that outline nesting compares levels on one scale for every heading kind (R-LEVEL). Verbatim section spans and re-import equality are not decided.",
+         "Decides that XML escaping on export and unescaping on import are exact inverses byte for byte (entity text, compare length, cursor advance, governing case), exhaustively over the 256 byte values; that the OPML and ITMZ outline writers print the same source ranges per token type (R-SIBLING); that outline nesting compares levels on one scale for every heading kind (R-LEVEL); and that the library import path returns text and length that belong together (R-STALE/len). Verbatim section spans and re-import equality are not decided.",
          "§3 C14"),
  "C13": ("other", "dominator / post-dominator obligations on mmd_transclude_source's CFG + interval analysis of its text[] buffer",
-         "Decides the termination guard and one manifest clause: the recursive call is dominated by the push of the file and by a membership test over the files being expanded whose hit branch skips the recursion, the name tested is the very name pushed (not edited in between), every push is followed by exactly one pop, exit restores the stack; the 1000-byte cap fits text[1100]; the manifest query expands a private copy, never the engine's source. Exact substitution, manifest contents and path resolution are not decided.",
+         "Decides the termination guard and one manifest clause: the recursive call is dominated by the push of the file and by a membership test over the files being expanded whose hit branch skips the recursion, the name tested is the very name pushed (not edited in between), every push is followed by exactly one pop, exit restores the stack; the 1000-byte cap fits text[1100]; the manifest query expands a private copy, never the engine's source; path construction never appends the string a buffer was created from a second time (R-ONCE). Exact substitution, manifest contents and path resolution are not decided.",
          "§3 C13"),
  "C15": ("other", "generated _Static_assert witnesses compiled with clang -fsyntax-only + AST census of next/prev/mate stores + whole-program value-origin analysis of token.type",
          "Decides the compile-time clause exhaustively (every parser terminal below the first block type, every token/critic type below kMaxTokenTypes, every offset-arithmetic family consecutive and equally long, sizeof(token) fits the pool) and two structural necessary conditions of the run-time clauses: R-LINK (next stores are matched by prev stores, mate written symmetrically, tail stored only on chain heads, token_pair_mate only on unmatched tokens), R-SPAN/split (the split primitives tile the original span) and R-TYPEWRITE. Span containment, source order and root span are not decided.",
@@ -53,10 +53,10 @@ CHECKS = {
          "Decides the implementation-side structure of the protocol: slab arithmetic consistent, bump gated by next<last and refill at next==last, slab aliases reset after drain, shared pool drained/freed only at use count 0, init idempotent, and the CLI never allocates tokens outside an init..drain bracket and frees at count 0. Behaviour of arbitrary client call histories is not decided.",
          "§3 C18"),
  "C16": ("other", "constant-table inspection (smart_char_type initialiser from the AST), cast check on every table lookup, whole-program absence of setlocale, interval analysis of the tolower argument in label_from_string",
-         "Decides two necessary conditions only (explicitly weak): the byte classifier is neutral on every byte >= 0x80 and is always indexed as unsigned char; ctype functions run only in the C locale (no setlocale anywhere) and label_from_string case-maps only ASCII while copying lead+continuation bytes unclassified. The re2c scanners' treatment of 0xA0 and truncations at length limits are not decided.",
+         "Decides necessary conditions only (explicitly weak): the byte classifier is neutral on every byte >= 0x80 and is always indexed as unsigned char; ctype functions run only in the C locale (no setlocale anywhere) and label_from_string case-maps only ASCII while copying lead+continuation bytes unclassified, with the copy loop bounded by nothing but the continuation test; no hand-written code compares a single text byte with a constant >= 0x80 outside mask form (R-HIGHBYTE); trailing trims test the element they remove (R-TRIMIDX). The re2c scanners' treatment of 0xA0 and truncations at length limits are not decided.",
          "§3 C16"),
  "C20": ("other", "EDPE of mmd_engine_export_token_tree over output_format (header/footer/body call order and guarding conditions), guard-condition census of every EXT_COMPLETE store, strcmp-chain extraction of the control-key set, call-graph cone check of metadata reads",
-         "Decides the structural clauses: the header call precedes and the footer follows the body and note lists under the same condition per format, EXT_COMPLETE is only set under !EXT_SNIPPET, the keys that do not force a complete document are exactly the rendering-control keys, the body exporters read metadata only in the variable-substitution branch, BLOCK_META emits nothing, and the complete/snippet bits are referenced only by the wrapper layer (R-WRAPBIT). That the snippet appears byte-for-byte inside the complete output is not decided.",
+         "Decides the structural clauses: the header call precedes and the footer follows the body and note lists under the same condition per format, EXT_COMPLETE is only set under !EXT_SNIPPET, the keys that do not force a complete document are exactly the rendering-control keys, the body exporters read metadata only in the variable-substitution branch, BLOCK_META emits nothing, the complete/snippet bits are referenced only by the wrapper layer (R-WRAPBIT), and the header / footer functions store into nothing but locals and the padding counter (R-WRAPPER-PURE). That the snippet appears byte-for-byte inside the complete output is not decided.",
          "§3 C20"),
  "C17": ("other", "same inventory on the -DDISABLE_OBJECT_POOL configuration with an empty allow list",
          "Decides the 'no shared mutable state' clause for the pool-disabled build; does not decide byte equality across threads.",
